@@ -62,3 +62,7 @@ package reconnect
 //@ func Dial$1
 //@   props C18
 //@   assert call Dialer).Dial: arg0.Reconnect && arg0.TransportID == c.DialConfig.TransportID && arg0.EncodingName == c.DialConfig.EncodingName
+
+// ---------------------------------------------------------------- C09: lock discipline
+//@ guarded[C09] Transport.writeResMu: writeResCh
+//@ guarded[C09] Transport.mu: transport
